@@ -327,7 +327,8 @@ theorem sim_buildStack {w : Walker Node} {a : TW Node} (h : Sim H ps w a) (posit
       show ((l ++ w.stack).map clOf).sum ≤ (w.outputPages.map (outLeaves H)).sum
       rw [List.map_append, List.sum_append, hz]
       omega
-  refine ⟨hpw, rfl, h.root, ?_, ?_, ?_, ?_, ?_, hrecon, h.cpr, h.outs, h.nofix, ?_, ?_⟩
+  refine ⟨hpw, rfl, h.root, ?_, ?_, ?_, ?_, ?_, hrecon, h.cpr, h.outs, h.nofix, ?_, ?_,
+    h.named.push (fun sp hsp => List.mem_append_right _ hsp) rfl rfl rfl⟩
   rotate_right
   · intro sp hsp
     have hsp' : sp ∈ l ++ w.stack := hsp
@@ -368,7 +369,8 @@ theorem sim_buildStack_root {w : Walker Node} {a : TW Node} (h : Sim H ps w a) (
   rw [hst]
   simp only [List.length_nil, Walker.popAll]
   refine ⟨_, rfl, ?_, ⟨hpar.symm, rfl, rfl, rfl, rfl⟩, rfl⟩
-  refine ⟨hpw, hnil, h.root, ?_, ?_, ?_, ?_, ?_, h.recon.cast H rfl rfl rfl (by rw [hst]) rfl, h.cpr, h.outs, h.nofix, ?_, ?_⟩
+  refine ⟨hpw, hnil, h.root, ?_, ?_, ?_, ?_, ?_, h.recon.cast H rfl rfl rfl (by rw [hst]) rfl, h.cpr, h.outs, h.nofix, ?_, ?_,
+    h.named.cast (by rw [hst]) rfl rfl rfl⟩
   · simp
   · intro sp rest e; cases e
   · trivial
